@@ -733,6 +733,9 @@ class Executor:
             return v.discr
         if isinstance(v, Lazy):
             return self.discr_of(v.uid, v.ty)
+        if isinstance(v, Ref):
+            # a match guard's by-reference binding of a moved scrutinee: look through the reference
+            return self.discriminant(st, self.read(st, v.cell, v.path))
         raise Unencodable(f"discriminant of {v!r}")
 
     # ------------------------------------------------------------------ solver
@@ -1615,6 +1618,15 @@ def m_ordering_pred(ex, st, callee, args, dest_ty, frame, depth):
     return _ret(st, Prim("bool", e))
 
 
+def m_box_as_ref(ex, st, callee, args, dest_ty, frame, depth):
+    """<Box<T> as AsRef<T>>::as_ref / Deref::deref: boxes are transparent"""
+    c, p = ex.deref_target(st, args[0])
+    v = ex.read(st, c, p)
+    if isinstance(v, Ref):
+        return _ret(st, Ref(dest_ty, v.cell, v.path))
+    return _ret(st, Ref(dest_ty, c, p))
+
+
 def m_notnan_deref(ex, st, callee, args, dest_ty, frame, depth):
     """<NotNan<f64> as Deref>::deref: a reference to the wrapped float"""
     c, p = ex.deref_target(st, args[0])
@@ -1922,6 +1934,7 @@ DEFAULT_MODELS = [
     (_rx(r"^NotNan::<f64>::into_inner$"), m_notnan_into_inner),
     (_rx(r"^<&?NotNan<f64> as Neg>::neg$"), m_notnan_neg),
     (_rx(r"^<NotNan<f64> as Deref>::deref$"), m_notnan_deref),
+    (_rx(r"^<Box<.*> as AsRef<.*>>::as_ref$"), m_box_as_ref),
     (_rx(r"<impl f64>::total_cmp$"), m_f64_total_cmp),
     (_rx(r"^(std::cmp::)?Ordering::(is_gt|is_ge|is_lt|is_le|is_eq|is_ne)$"), m_ordering_pred),
     (_rx(r"^(std::rt::|core::panicking::)?(panic|panic_fmt|begin_panic|panic_display|panic_explicit)\b|::expect_failed$|::unwrap_failed$|^(core::)?panicking::panic"), m_panic),
